@@ -184,6 +184,16 @@ def _case_adjust(ctx, rng, ds, shape, fam, vector, seen_profiles):
             dtype = np.uint16
             unsigned = True
         ctx.count("adjust:unsigned-elevation")
+    elif scale == 1 and rng.random() < 0.12:
+        # narrow signed DEMs (int8 / int16, e.g. SRTM with -32768 voids) with values at the ends of the dtype's
+        # range: differences overflow the dtype. Property clauses only (same reason as for unsigned rasters).
+        dtype = rng.choice([np.int8, np.int16])
+        info = np.iinfo(dtype)
+        e = [rng.choice([info.min, info.max, rng.randint(info.min, info.max), max(info.min, min(info.max, x))])
+             for x in e]
+        unsigned = True
+        efam += "+dtype-extremes"
+        ctx.count("adjust:narrow-signed-extremes")
     idt = rng.choice(IDX_DTYPES)
     try:
         flw = mk_vector(ds, idt) if vector else mk_raster(ds, shape, idt)
@@ -316,6 +326,15 @@ def _case_dig(ctx, rng, max_cells):
     mode = rng.choice(["wrapper-int", "wrapper-float", "kernel-dyadic"])
     from pyflwdir import dem
     mnp = None if mask is None else np.array(mask, dtype=bool).reshape(shape)
+    if mnp is not None and mode != "kernel-dyadic" and rng.random() < 0.3:
+        # a 0/1 integer river mask: either rejected with a documented error or honoured like the boolean mask
+        mint = mnp.astype(rng.choice([np.uint8, np.int32, np.int64]))
+        try:
+            flw.dem_dig_d4(np.zeros(shape, dtype=np.float64), rivmsk=mint)
+            mnp = mint
+            ctx.count("dig:mask-dtype:" + mint.dtype.name)
+        except (ValueError, TypeError):
+            ctx.count("dig:integer-mask-rejected")
     if mode == "wrapper-int":
         dtype = rng.choice([np.int32, np.int64])
         elv = np.array(e, dtype=dtype).reshape(shape)
